@@ -39,6 +39,7 @@ def run_check(d, pid, tier="quick"):
     env = dict(os.environ)
     env["VERIF_REPO"] = d
     env["VERIF_EVIDENCE_DIR"] = os.path.join(d, "_verif_evidence")
+    env["VERIF_CACHE_DIR"] = os.path.join(d, "_verif_cache")
     t0 = time.time()
     p = subprocess.run([os.path.join(C.VERIF, "check"), pid, "--tier", tier], env=env, capture_output=True, text=True)
     viol = [l for l in p.stdout.splitlines() if l.startswith("VIOLATION")]
